@@ -902,6 +902,16 @@ impl LpgStore {
         grafeo_common::verif::yield_point("lpg.set_node_property");
         let mut nodes = self.nodes.write();
 
+        // A property of a node that does not exist (never created, rolled back or
+        // deleted) would show up in property lookups and be inherited by a node
+        // later created with that id
+        if !nodes
+            .get(&id)
+            .is_some_and(|chain| chain.visible_at(EpochId::PENDING).is_some())
+        {
+            return;
+        }
+
         // Update property index before setting the property (needs to read old value)
         self.update_property_index_on_set(id, &prop_key, &value);
 
@@ -932,6 +942,23 @@ impl LpgStore {
     }
 
     /// Sets a property on an edge.
+    #[cfg(not(feature = "tiered-storage"))]
+    pub fn set_edge_property(&self, id: EdgeId, key: &str, value: Value) {
+        // As for nodes: no properties for an edge that does not exist
+        if !self
+            .edges
+            .read()
+            .get(&id)
+            .is_some_and(|chain| chain.visible_at(EpochId::PENDING).is_some())
+        {
+            return;
+        }
+        self.edge_properties.set(id, key.into(), value);
+    }
+
+    /// Sets a property on an edge.
+    /// (Tiered storage version)
+    #[cfg(feature = "tiered-storage")]
     pub fn set_edge_property(&self, id: EdgeId, key: &str, value: Value) {
         self.edge_properties.set(id, key.into(), value);
     }
